@@ -95,9 +95,10 @@ def main():
         shutil.rmtree(scratch, ignore_errors=True)
     m_out = {"property": pid, "summary": m.get("summary"), "needs_to_manifest": m.get("needs_to_manifest"),
              "files": m.get("files"), "author": "independent sub-agent (saw only the property text and a scratch worktree)",
-             "confirmed": res, "tier": tier,
+             "confirmed": res, "tier": tier, "note": m.get("note"),
              "how_run": f"tools/seedtest.py <dir> {pid} {kname} (scratch worktree of /repo HEAD + PYTHONPATH/CKT_REPO; /repo untouched)"}
-    (dst / "meta.json").write_text(json.dumps(m_out, indent=1))
+    if not os.environ.get("SEEDTEST_NOWRITE"):
+        (dst / "meta.json").write_text(json.dumps(m_out, indent=1))
     print(json.dumps({"id": f"{pid}-{kname}", **{kk: res.get(kk) for kk in ("suite_ok", "demo_clean", "demo_changed", "detected", "detected_with_input")},
                       "lines": res["checks"][pid]["lines"][:3]}, indent=1))
 
